@@ -202,6 +202,22 @@ def run(tier, replay):
                         done_paths.add(S.path_sig(key, p))
     nshards = 8
     shards = [jobs[i::nshards] for i in range(nshards)]
+    # a caller-owned parameter block in use (legacy interface): ONE bbpars block initialised again and again through
+    # genbbsub(ISTART_INIT) without being reset - other window, other level, other nuclide, other mode, same mode again.
+    # Every initialisation (ratio, clamped window) and every event must still agree with the reference.
+    chain = [("Mo100", 0, 4, (2.0, 4.3)), ("Mo100", 0, 4, (2.5, 4.3)), ("Mo100", 0, 4, None), ("Mo100", 2, 4, None), ("Mo100", 2, 4, (0.5, 1.5)),
+             ("Se82", 0, 4, None), ("Se82", 0, 4, (1.0, 2.0)), ("Se82", 0, 1, None), ("Mo100", 0, 1, None), ("Mo100", 1, 7, None),
+             ("Cd106", 0, 10, (0.3, 0.6)), ("Cd106", 0, 10, None), ("Cd106", 1, 10, None), ("Mo100", 0, 13, (1.5, 2.5)), ("Mo100", 0, 13, None),
+             ("Nd150", 0, 13, None), ("Nd150", 0, 20, None), ("Zr96", 0, 20, None), ("Zr96", 0, 5, (1.0, 3.0)), ("Zr96", 0, 5, None),
+             ("Mo100", 0, 4, (2.0, 4.3))]
+    clines = []
+    for ci, (iso_, lev_, mode_, win_) in enumerate(chain * (3 if thorough else 1)):
+        jid = "%s.%d.%d.k%d" % (iso_, lev_, mode_, ci)
+        line = dline(jid, iso_, lev_, mode_, win_, 4242 + ci, 4) + " K"
+        clines.append(line)
+        meta[jid] = {"kind": "block-in-use", "iso": iso_, "level": lev_, "mode": mode_, "job": line, "chain": clines[:]}
+    shards.append(clines)
+    nshards += 1
     wd = vlib.workdir("c02")
     results = []
     with cf.ThreadPoolExecutor(max_workers=nshards) as ex:
